@@ -102,6 +102,8 @@ def run(ctx):
                 opts.update({"cu_imports": 0.4, "implicit_consts": 0.4})
             if k % 3 == 2:
                 opts["type_units"] = 0.4
+            if k % 2 == 1:
+                opts["both_refs"] = 0.5       # DIEs with DW_AT_specification and DW_AT_abstract_origin, stored in either order
             if k >= 0:
                 desc, path = fs.make(rng, **opts)
             i, ne, _ = import_stats(desc)
